@@ -369,3 +369,349 @@ Proof.
     unfold thx', pk. cbn. exact Hocc.
   - exact Hk.
 Qed.
+
+(* ------------------------------------------------------------------------------------ *)
+(** * Preservation: every step of [SyncModel.step] keeps [Inv]
+    (tactics: one generic solver per kind of side condition of the frame lemmas) *)
+
+
+Ltac norm_state := unfold set_thread, set_thr, set_mword, set_festat; cbn [mword mq cqs festat thr].
+Ltac unf_meas := unfold pk, hP, hPc, hE, hO, hR, hD, hN, hL, hX, hBad, add_cb, set_main, set_cbs, set_own in *;
+  cbn [main cbs own] in *; rewrite ?sumf_app in *;
+  cbn [mP mD mN mX mL uP uD uN uX uBad lockish is_susp pc_ok Nat.b2n sumf eR eE eP eD eN eX eBad] in *.
+
+Lemma twf_unfold th : twf th ->
+  hP th <= hO th /\ (1 <= hPc th -> lockish (main th) = true) /\
+  hE th <= 1 /\ (is_susp (main th) = false -> hE th = 0) /\
+  pc_ok (main th) /\ hBad th = 0.
+Proof. auto. Qed.
+
+Ltac parity :=
+  repeat match goal with
+  | H : Z.even ?w = true |- _ => apply Z.even_spec in H; destruct H as [? H]
+  | H : Z.odd ?w = true |- _ => apply Z.odd_spec in H; destruct H as [? H]
+  | H : Z.even ?w = false |- _ => rewrite <- Z.negb_odd in H; apply negb_false_iff in H
+  | H : Z.odd ?w = false |- _ => rewrite <- Z.negb_even in H; apply negb_false_iff in H
+  | H : (_ =? _)%Z = true |- _ => apply Z.eqb_eq in H
+  | H : (_ =? _)%Z = false |- _ => apply Z.eqb_neq in H
+  | H : (_ >? _)%Z = true |- _ => apply Z.gtb_lt in H
+  end.
+
+Ltac boolnorm :=
+  repeat match goal with
+  | H : (if ?c then 0 else 1) = 0 |- _ => destruct c eqn:?; [clear H|discriminate H]
+  | H : (if ?c then 0 else 1) <= _ |- _ => destruct c eqn:?
+  | H : Z.even ?w = false |- _ => rewrite <- Z.negb_odd in H; apply negb_false_iff in H
+  | H : Z.odd ?w = false |- _ => rewrite <- Z.negb_even in H; apply negb_false_iff in H
+  end.
+Ltac solve_twf :=
+  repeat split; intros; try reflexivity; try assumption; try lia; try discriminate;
+  try (exfalso; lia);
+  try (match goal with W2 : _ -> lockish _ = true |- lockish _ = true => apply W2; lia end);
+  try (match goal with W4 : ?A -> _ = 0, HA : ?A |- _ => specialize (W4 HA); lia end);
+  try (match goal with W4 : _ = _ -> _ = 0 |- _ => specialize (W4 eq_refl); lia end).
+
+Lemma cq_deq cqs c x r y : nth c cqs [] = x :: r -> sumf (cnt y) (upd cqs c r) + Nat.b2n (x =? y) = sumf (cnt y) cqs.
+Proof.
+  rewrite nth_nth_error. destruct (nth_error cqs c) as [l|] eqn:E; [|discriminate].
+  intros ->. pose proof (sumf_upd (cnt y) _ _ _ r E) as U. rewrite cnt_cons in U. lia.
+Qed.
+
+Lemma cq_enq cqs c t y : sumf (cnt y) (upd cqs c (nth c cqs [] ++ [t])) <= sumf (cnt y) cqs + Nat.b2n (t =? y).
+Proof.
+  rewrite nth_nth_error. destruct (nth_error cqs c) as [l|] eqn:E.
+  - pose proof (sumf_upd (cnt y) _ _ _ (l ++ [t]) E) as U. rewrite cnt_app in U. change (cnt y [t]) with (Nat.b2n (t =? y) + 0) in U. lia.
+  - rewrite upd_none by exact E. lia.
+Qed.
+
+Ltac rw_mq := repeat match goal with E : mq _ = _ |- _ => rewrite E in * end; cbn [length] in *.
+Ltac solve_occ s I t Hth :=
+  let y := fresh "y" in let X := fresh "X" in let HX := fresh "HX" in let Ho := fresh "Ho" in
+  intros y X HX; unf_meas; pose proof (inv_occ s I y) as Ho; unfold occ in Ho;
+  try match goal with E : nth _ (cqs _) [] = _ :: _ |- _ => pose proof (cq_deq _ _ _ _ y E) end;
+  rw_mq; change (cnt y []) with 0 in *; rewrite ?cnt_cons in *;
+  destruct (Nat.eqb_spec y t) as [->|?]; [rewrite (pk_at_here _ _ _ Hth) in Ho; unf_meas|]; lia.
+
+Ltac brk H := repeat match type of H with
+  | context [if ?c then _ else _] => destruct c eqn:?
+  | context [match ?x with _ => _ end] => destruct x eqn:?
+  end.
+
+
+Ltac brk_term x :=
+  match x with
+  | context [match ?y with _ => _ end] => brk_term y
+  | nth_error (thr _) _ => fail 1
+  | nth_error (upd _ _ _) _ => fail 1
+  | _ => destruct x eqn:?
+  end.
+Ltac brk2 H Hth := repeat (first
+  [ progress (cbn [thr set_mword set_festat set_thread set_thr mword mq cqs festat] in H)
+  | rewrite Hth in H
+  | rewrite (nth_error_upd_eq _ _ _ _ Hth) in H
+  | match type of H with
+    | context [match ?x with _ => _ end] => brk_term x
+    end ]).
+Ltac rw_if := repeat match goal with
+  | H : ?c = true |- context [if ?c then _ else _] => rewrite H
+  | H : ?c = true, H2 : context [if ?c then _ else _] |- _ => rewrite H in H2
+  end.
+
+
+Ltac solve_occ_wake s I t Hth x Hx Hmx :=
+  let y := fresh "y" in let X := fresh "X" in let HX := fresh "HX" in let Ho := fresh "Ho" in
+  intros y X HX; unf_meas; pose proof (inv_occ s I y) as Ho; unfold occ in Ho;
+  rw_mq; change (cnt y []) with 0 in *; rewrite ?cnt_cons in *;
+  destruct (Nat.eqb_spec y t) as [->|?];
+  [ rewrite (pk_at_here _ _ _ Hth) in Ho; unf_meas; lia
+  | destruct (Nat.eqb_spec y x) as [->|?];
+    [ rewrite (pk_at_here _ _ _ Hx) in Ho; unfold pk in Ho; rewrite Hmx in Ho; cbn [is_susp] in Ho;
+      rewrite ?Nat.eqb_refl in *; cbn [Nat.b2n] in *; lia
+    | lia ] ].
+Lemma mD_le_mP p : mD p <= mP p.
+Proof. destruct p as [| | | | | | | |u| | | | |]; cbn; try lia. destruct u; cbn; lia. Qed.
+Ltac prelude s I t th Hth :=
+  pose proof (twf_unfold _ (inv_twf s I t th Hth)) as W;
+  pose proof (inv_seats s I) as Is; pose proof (inv_excl s I) as Ie; pose proof (inv_wake s I) as Ik;
+  pose proof (inv_nonneg s I) as In0;
+  pose proof (hO_le_SH s t th Hth) as Ho1; pose proof (SD_slack s t th I Hth) as Hsl;
+  pose proof (sumf_ge hN _ _ _ Hth : hN th <= SN s) as HgN; pose proof (sumf_ge hL _ _ _ Hth : hL th <= SL s) as HgL;
+  pose proof (sumf_ge hD _ _ _ Hth : hD th <= SD s) as HgD; pose proof (sumf_ge hR _ _ _ Hth : hR th <= SR s) as HgR;
+  pose proof (sumf_le eD eP (cbs th) (fun _ a _ => eD_le_eP a)) as HDP;
+  pose proof (mD_le_mP (main th)) as HmDP.
+
+
+Ltac cbn_e := cbn [eP eE eR eD eN eX eBad uP uD uN uX uBad Nat.b2n] in *.
+Ltac pose_cbs cs i Hi :=
+  try match goal with |- context [upd cs i ?b] =>
+    pose proof (sumf_upd eP cs i _ b Hi); pose proof (sumf_upd eE cs i _ b Hi); pose proof (sumf_upd eR cs i _ b Hi);
+    pose proof (sumf_upd eD cs i _ b Hi); pose proof (sumf_upd eN cs i _ b Hi); pose proof (sumf_upd eBad cs i _ b Hi) end;
+  try match goal with |- context [remove_nth cs i] =>
+    pose proof (sumf_remove eP cs i _ Hi); pose proof (sumf_remove eE cs i _ Hi); pose proof (sumf_remove eR cs i _ Hi);
+    pose proof (sumf_remove eD cs i _ Hi); pose proof (sumf_remove eN cs i _ Hi); pose proof (sumf_remove eBad cs i _ Hi) end;
+  pose proof (sumf_ge eP cs i _ Hi); pose proof (sumf_ge eE cs i _ Hi); pose proof (sumf_ge eR cs i _ Hi);
+  pose proof (sumf_ge eD cs i _ Hi); pose proof (sumf_ge eN cs i _ Hi); pose proof (sumf_ge eBad cs i _ Hi);
+  pose proof (sumf_le_at eD eP cs i _ (fun _ b _ => eD_le_eP b) Hi);
+  cbn_e.
+Ltac pose_cbs_y cs i Hi y :=
+  try match goal with
+      | |- context [upd cs i ?b] => pose proof (sumf_upd (eX y) cs i _ b Hi)
+      | _ : context [upd cs i ?b] |- _ => pose proof (sumf_upd (eX y) cs i _ b Hi) end;
+  try match goal with
+      | |- context [remove_nth cs i] => pose proof (sumf_remove (eX y) cs i _ Hi)
+      | _ : context [remove_nth cs i] |- _ => pose proof (sumf_remove (eX y) cs i _ Hi) end;
+  pose proof (sumf_ge (eX y) cs i _ Hi); cbn_e.
+
+Ltac solve_occ_cb s I t Hth cs i Hi :=
+  let y := fresh "y" in let X := fresh "X" in let HX := fresh "HX" in let Ho := fresh "Ho" in
+  intros y X HX; unf_meas; pose_cbs_y cs i Hi y; pose proof (inv_occ s I y) as Ho; unfold occ in Ho;
+  try match goal with |- context [upd (cqs ?s0) ?c (nth ?c (cqs ?s0) [] ++ [?t0])] => pose proof (cq_enq (cqs s0) c t0 y) end;
+  rw_mq; change (cnt y []) with 0 in *; rewrite ?cnt_cons, ?cnt_app in *; change (cnt y [t]) with (Nat.b2n (t =? y) + 0) in *;
+  destruct (Nat.eqb_spec y t) as [->|?];
+  [rewrite (pk_at_here _ _ _ Hth) in Ho; unf_meas; rewrite ?Nat.eqb_refl in *; cbn [Nat.b2n] in *;
+   try match goal with E : is_susp _ = _ |- _ => rewrite E in Ho end;
+   try match goal with |- context [is_susp ?m] => destruct (is_susp m) eqn:? end
+  | assert (Nat.b2n (t =? y) = 0) by (destruct (Nat.eqb_spec t y); [congruence|reflexivity]) ]; try lia.
+
+Ltac solve_occ_wake_cb s I t Hth x Hx Hmx cs i Hi :=
+  let y := fresh "y" in let X := fresh "X" in let HX := fresh "HX" in let Ho := fresh "Ho" in
+  intros y X HX; unf_meas; pose_cbs_y cs i Hi y; pose proof (inv_occ s I y) as Ho; unfold occ in Ho;
+  rw_mq; change (cnt y []) with 0 in *; rewrite ?cnt_cons in *;
+  destruct (Nat.eqb_spec y t) as [->|?];
+  [ rewrite (pk_at_here _ _ _ Hth) in Ho; unf_meas;
+    assert (Nat.b2n (x =? t) = 0) by (destruct (Nat.eqb_spec x t); [congruence|reflexivity]);
+    try match goal with |- context [is_susp ?m] => destruct (is_susp m) eqn:? end; lia
+  | destruct (Nat.eqb_spec y x) as [->|?];
+    [ rewrite (pk_at_here _ _ _ Hx) in Ho; unfold pk in Ho; rewrite Hmx in Ho; cbn [is_susp] in Ho;
+      rewrite ?Nat.eqb_refl in *; cbn [Nat.b2n] in *; lia
+    | assert (Nat.b2n (x =? y) = 0) by (destruct (Nat.eqb_spec x y); [congruence|reflexivity]); lia ] ].
+
+Lemma inv_cbtick_enq s t i s' th q unl : Inv s -> nth_error (thr s) t = Some th ->
+  nth_error (cbs th) i = Some (CbEnq q unl) -> cbtick s t i = Some s' -> Inv s'.
+Proof.
+  intros I Hth Hi H. unfold cbtick, get_thread in H. rewrite Hth in H. rewrite Hi in H.
+  prelude s I t th Hth.
+  destruct th as [m cs ow]. cbn [main own cbs] in *.
+  assert (Hsu : is_susp m = true).
+  { destruct (is_susp m) eqn:E; [reflexivity|]. destruct W as (_ & _ & _ & W4 & _). specialize (W4 eq_refl).
+    unfold hE in W4. cbn [cbs] in W4. pose proof (sumf_ge eE cs i _ Hi) as G. cbn in G. lia. }
+  injection H as <-.
+  destruct q as [|c]; destruct unl; unfold setq, getq; norm_state.
+  all: apply (inv_update s t _ _ _ _ _ _ I Hth);
+       unfold twf; unf_meas; destruct W as (W1 & W2 & W3 & W4 & W5 & W6); rewrite ?Hsu in *; pose_cbs cs i Hi.
+  all: try (solve_twf; fail).
+  all: rewrite ?app_length; cbn [length].
+  all: try lia.
+  all: try (intros; lia).
+  all: try (solve_occ_cb s I t Hth cs i Hi; fail).
+Qed.
+
+Lemma inv_cbtick_unl s t i s' th u : Inv s -> nth_error (thr s) t = Some th ->
+  nth_error (cbs th) i = Some (CbUnl u) -> cbtick s t i = Some s' -> Inv s'.
+Proof.
+  intros I Hth Hi H. unfold cbtick, get_thread in H. rewrite Hth in H. rewrite Hi in H.
+  prelude s I t th Hth.
+  destruct th as [m cs ow]. cbn [main own cbs] in *.
+  destruct u as [nf|nf w|nf w|nf|nf x|nf x]; unfold ustep, clear_own, wake, get_thread, setq in H;
+    cbn [thr set_mword] in H; rewrite ?Hth in H.
+  1-5: brk2 H Hth; try discriminate; injection H as <-; norm_state; rewrite ?upd_upd;
+       apply (inv_update s t _ _ _ _ _ _ I Hth);
+       unfold twf; unf_meas; destruct W as (W1 & W2 & W3 & W4 & W5 & W6); pose_cbs cs i Hi; boolnorm; rw_if.
+  all: try (solve_twf; fail).
+  all: parity; rw_mq.
+  all: try lia.
+  all: try (intros; lia).
+  all: try (solve_occ_cb s I t Hth cs i Hi; fail).
+  destruct (nth_error (thr s) x) as [thx|] eqn:Hx; [|discriminate].
+  destruct (main thx) eqn:Hmx; try discriminate.
+  cbn [thr set_thread set_thr] in H.
+  destruct (Nat.eq_dec x t) as [->|Hxt].
+  - rewrite Hth in Hx. injection Hx as <-. cbn [main] in Hmx. subst m.
+    rewrite (nth_error_upd_eq _ _ _ _ Hth) in H. injection H as <-. norm_state. rewrite upd_upd.
+    pose proof (inv_occ s I t) as Hot. rewrite (pk_at_here _ _ _ Hth) in Hot. unfold occ, SX in Hot.
+    pose proof (sumf_ge (hX t) _ _ _ Hth) as HgX.
+    apply (inv_update s t _ _ _ _ _ _ I Hth);
+      unfold twf; unf_meas; destruct W as (W1 & W2 & W3 & W4 & W5 & W6); pose_cbs cs i Hi; pose_cbs_y cs i Hi t;
+      rewrite ?Nat.eqb_refl in *; cbn [Nat.b2n] in *.
+    all: try (solve_twf; fail).
+    all: try lia.
+    all: try (intros; lia).
+    all: try (solve_occ_cb s I t Hth cs i Hi; fail).
+  - assert (Hh : 1 <= hX x {| main := m; cbs := cs; own := ow |}).
+    { unfold hX. cbn [cbs]. pose proof (sumf_ge (eX x) cs i _ Hi) as G. cbn in G. rewrite Nat.eqb_refl in G. cbn in G. lia. }
+    rewrite (nth_error_upd_neq _ _ _ _ Hxt) in H; rewrite Hth in H. injection H as <-. norm_state.
+    apply (inv_update_wake s t _ x thx k _ _ _ _ _ I Hth Hxt Hx Hmx Hh);
+      unfold twf; unf_meas; destruct W as (W1 & W2 & W3 & W4 & W5 & W6); pose_cbs cs i Hi.
+    all: try (solve_twf; fail).
+    all: try lia.
+    all: try (intros; lia).
+    solve_occ_wake_cb s I t Hth x Hx Hmx cs i Hi.
+Qed.
+
+Lemma inv_tick_unl s t s' th u : Inv s -> nth_error (thr s) t = Some th -> main th = Unl u ->
+  tick s t = Some s' -> Inv s'.
+Proof.
+  intros I Hth Hm H. unfold tick, get_thread in H. rewrite Hth in H.
+  prelude s I t th Hth.
+  destruct th as [m cs ow]. cbn [main own] in H, Hm. subst m.
+  destruct u as [nf|nf w|nf w|nf|nf x|nf x]; unfold ustep, clear_own, wake, get_thread, setq in H;
+    cbn [thr set_mword] in H; rewrite ?Hth in H.
+  1-5: brk2 H Hth; try discriminate; injection H as <-; norm_state; rewrite ?upd_upd;
+       apply (inv_update s t _ _ _ _ _ _ I Hth);
+       unfold twf; unf_meas; destruct W as (W1 & W2 & W3 & W4 & W5 & W6); boolnorm; rw_if.
+  all: try (solve_twf; fail).
+  all: parity; rw_mq.
+  all: try lia.
+  all: try (intros; lia).
+  all: try (solve_occ s I t Hth; fail).
+  destruct (nth_error (thr s) x) as [thx|] eqn:Hx; [|discriminate].
+  destruct (main thx) eqn:Hmx; try discriminate.
+  cbn [thr set_thread set_thr] in H.
+  assert (Hxt : x <> t) by (intros ->; rewrite Hth in Hx; injection Hx as <-; discriminate Hmx).
+  rewrite (nth_error_upd_neq _ _ _ _ Hxt) in H; rewrite Hth in H. injection H as <-. norm_state.
+  apply (inv_update_wake s t _ x thx k _ _ _ _ _ I Hth Hxt Hx Hmx);
+    unfold twf; unf_meas; destruct W as (W1 & W2 & W3 & W4 & W5 & W6); rewrite ?Nat.eqb_refl; cbn [Nat.b2n].
+  all: try (solve_twf; fail).
+  all: try lia.
+  all: try (intros; lia).
+  all: try (solve_occ_wake s I t Hth x Hx Hmx; fail).
+Qed.
+
+Definition simple_pc (p : pc) : bool :=
+  match p with Unl _ | SigPush _ _ _ => false | _ => true end.
+
+Lemma inv_tick_simple s t s' th : Inv s -> nth_error (thr s) t = Some th -> simple_pc (main th) = true ->
+  tick s t = Some s' -> Inv s'.
+Proof.
+  intros I Hth Hsp H. unfold tick, get_thread in H. rewrite Hth in H.
+  prelude s I t th Hth.
+  destruct th as [m cs ow]. cbn [main own] in H, Hsp.
+  destruct m; try discriminate; unfold lock_read, acquired, getq, setq in H; cbn [thr set_festat] in H; rewrite ?Hth in H.
+  all: brk H; try discriminate; injection H as <-; norm_state; unfold setq; cbn [mword mq cqs festat thr].
+  all: apply (inv_update s t _ _ _ _ _ _ I Hth).
+  all: unfold twf; unf_meas; destruct W as (W1 & W2 & W3 & W4 & W5 & W6); boolnorm.
+  all: try (solve_twf; fail).
+  all: parity.
+  all: try lia.
+  all: try (intros; lia).
+  all: try (solve_occ s I t Hth; fail).
+Qed.
+
+Lemma inv_call s t o s' : Inv s -> call s t o = Some s' -> Inv s'.
+Proof.
+  intros I H. unfold call, get_thread in H.
+  destruct (nth_error (thr s) t) as [th|] eqn:Hth; [|discriminate].
+  pose proof (twf_unfold _ (inv_twf s I t th Hth)) as W.
+  pose proof (inv_seats s I) as Is. pose proof (inv_excl s I) as Ie. pose proof (inv_wake s I) as Ik.
+  pose proof (inv_nonneg s I) as In0.
+  destruct th as [m cs ow]. cbn [main own] in H.
+  destruct m; try discriminate.
+  destruct o; cbn [own] in H.
+  all: try (destruct ow; try discriminate).
+  all: injection H as <-; norm_state.
+  all: apply (inv_update s t _ _ _ _ _ _ I Hth).
+  all: unfold twf; unf_meas.
+  all: try exact In0.
+  all: try (destruct W as (W1 & W2 & W3 & W4 & W5 & W6); solve_twf; fail).
+  all: try (intros; lia).
+  all: try (solve_occ s I t Hth; fail).
+Qed.
+
+Lemma inv_ret s t v s' : Inv s -> ret s t v = Some s' -> Inv s'.
+Proof.
+  intros I H. unfold ret, ret_ok, get_thread in H.
+  destruct (nth_error (thr s) t) as [th|] eqn:Hth; [|discriminate].
+  pose proof (twf_unfold _ (inv_twf s I t th Hth)) as W.
+  pose proof (inv_seats s I) as Is. pose proof (inv_excl s I) as Ie. pose proof (inv_wake s I) as Ik.
+  pose proof (inv_nonneg s I) as In0.
+  destruct th as [m cs ow]. cbn [main own] in H.
+  destruct m; try discriminate.
+  all: destruct (_ =? _)%Z; try discriminate.
+  all: injection H as <-; norm_state.
+  all: apply (inv_update s t _ _ _ _ _ _ I Hth).
+  all: unfold twf; unf_meas.
+  all: try exact In0.
+  all: try (destruct W as (W1 & W2 & W3 & W4 & W5 & W6); solve_twf; fail).
+  all: try (intros; lia).
+  all: try (solve_occ s I t Hth; fail).
+Qed.
+
+Lemma inv_tick_sigpush s t s' th c k x : Inv s -> nth_error (thr s) t = Some th -> main th = SigPush c k x ->
+  tick s t = Some s' -> Inv s'.
+Proof.
+  intros I Hth Hm H. unfold tick, get_thread in H. rewrite Hth in H.
+  prelude s I t th Hth.
+  destruct th as [m cs ow]. cbn [main own] in H, Hm. subst m.
+  unfold wake, get_thread in H.
+  destruct (nth_error (thr s) x) as [thx|] eqn:Hx; [|discriminate].
+  destruct (main thx) eqn:Hmx; try discriminate.
+  assert (Hxt : x <> t) by (intros ->; rewrite Hth in Hx; injection Hx as <-; discriminate Hmx).
+  destruct k; cbn [thr set_thread set_thr] in H;
+  rewrite (nth_error_upd_neq _ _ _ _ Hxt) in H; rewrite Hth in H; injection H as <-; norm_state.
+  all: apply (inv_update_wake s t _ x thx _ _ _ _ _ _ I Hth Hxt Hx Hmx);
+    unfold twf; unf_meas; destruct W as (W1 & W2 & W3 & W4 & W5 & W6); rewrite ?Nat.eqb_refl; cbn [Nat.b2n].
+  all: try (solve_twf; fail).
+  all: try lia.
+  all: try (intros; lia).
+  all: try (solve_occ_wake s I t Hth x Hx Hmx; fail).
+Qed.
+
+Theorem inv_step s a s' : Inv s -> step s a = Some s' -> Inv s'.
+Proof.
+  intros I H. destruct a as [t e]. destruct e as [o| |i|v]; cbn [step] in H.
+  - eapply inv_call; eauto.
+  - assert (exists th, nth_error (thr s) t = Some th) as [th Hth].
+    { unfold tick, get_thread in H. destruct (nth_error (thr s) t) as [th|]; [eauto|discriminate]. }
+    destruct (main th) eqn:Hm.
+    all: try (eapply inv_tick_simple; [exact I | exact Hth | rewrite Hm; reflexivity | exact H]).
+    + eapply inv_tick_unl; eauto.
+    + eapply inv_tick_sigpush; eauto.
+  - assert (exists th, nth_error (thr s) t = Some th) as [th Hth].
+    { unfold cbtick, get_thread in H. destruct (nth_error (thr s) t) as [th|]; [eauto|discriminate]. }
+    assert (exists c, nth_error (cbs th) i = Some c) as [c Hc].
+    { unfold cbtick, get_thread in H. rewrite Hth in H. destruct (nth_error (cbs th) i) as [c|]; [eauto|discriminate]. }
+    destruct c as [q unl|u].
+    + eapply inv_cbtick_enq; eauto.
+    + eapply inv_cbtick_unl; eauto.
+  - eapply inv_ret; eauto.
+Qed.
